@@ -743,12 +743,18 @@ class BlockBase(Base):
             while i < len(classes):
                 if enable_do_label_construct_hook:
                     # Multiple, labelled DO statements can reference the
-                    # same label.
+                    # same label. Such a statement may be preceded by
+                    # comments, includes and directives.
+                    skipped = []
+                    DynamicImport.add_comments_includes_directives(skipped, reader)
                     obj = startcls(reader)
                     if obj is not None and hasattr(obj, "get_start_label"):
                         if start_label == obj.get_start_label():
+                            content.extend(skipped)
                             content.append(obj)
                             continue
+                        obj.restore_reader(reader)
+                    for obj in reversed(skipped):
                         obj.restore_reader(reader)
                 # Attempt to match the i'th subclass
                 cls = classes[i]
